@@ -445,6 +445,15 @@ class TSPkoptEnv(ImprovementEnvBase):
             == solution.data.sort(1)[0]
         ).all(), "Not visiting all nodes"
 
+        # single tour: every node must be reached by the walk from node 0
+        visited_time = torch.zeros((batch_size, graph_size), device=solution.device)
+        pre = torch.zeros(batch_size, device=solution.device).long()
+        arange = torch.arange(batch_size)
+        for i in range(graph_size):
+            visited_time[arange, solution[arange, pre]] = i + 1
+            pre = solution[arange, pre]
+        assert (visited_time > 0).all(), "Not a single tour"
+
     def get_mask(self, td):
         # return mask that is 1 if the corresponding action is feasible, 0 otherwise
         visited_time = td["visited_time"]
